@@ -281,6 +281,8 @@ class DirectCollocation(SamplingMethod):
                 # Row vector if vector
                 if value.is_column() and var.is_scalar(): value = value.T
                 if is_states:
+                    # One number for a vector-valued state: the same for every component
+                    if value.is_scalar() and not var.is_scalar(): value = repmat(value, var.numel(), 1)
                     if var.numel()*(self.N)==value.numel() or var.numel()*(self.N+1)==value.numel():
                         # One column per control interval (or node): repeat it for the points of that interval
                         value_integrator = horzcat(ca.kron(value[:,:self.N],DM.ones(1,self.M)),value[:,-1])
@@ -333,6 +335,8 @@ class DirectCollocation(SamplingMethod):
                 for i, e in enumerate(self.Zc[k]):
                     e_shape = e[algs[var],:].shape
                     value = DM(opti.debug.value(hcat([self.eval_at_integrator_root(stage, expr, k, i, j) for j in range(e_shape[1])]), opti_initial))                    
+                    # One number for a vector-valued algebraic variable: the same for every component
+                    if value.numel()==e_shape[1] and e_shape[0]>1: value = repmat(ca.vec(value).T, e_shape[0], 1)
                     opti.set_initial(e[algs[var],:], value)
 
     def to_function(self, stage, name, args, results, *margs):
